@@ -5,6 +5,8 @@ CONSTANTS Configs = {}
   SkipEpochWithoutRow = FALSE
   LoadEveryEngine = FALSE
   LoadOnlyOwnTargets = TRUE
+  MatchWholeSecond = FALSE
+  DedupIgnoresSensor = FALSE
   CrashOnDuplicate = FALSE
   KeepDuplicates = FALSE
   CreateMissingTables = FALSE
